@@ -505,6 +505,11 @@ STATIC_CULPRITS = [
     ("break-outside", "fn main() {{\n    {C}\n}}\n", "break;", 3, "Illegal use of 'break'"),
     ("call-args", "fn f(a: int) {{ println(a); }}\nfn main() {{\n    f{C};\n}}\n", "(1, 2)", 3, "Function requires 1 argument"),
     ("trigger-undefined-in-block", "fn main() {{\n    let fa = match 1 {{ 3 => 5, _ => {C} }};\n}}\n", "if true { } else if false { trigger y on h(1); }", 3, "Mismatched types"),
+    # every entry of a braced import list has its own span (the second, the third on its own line, a `type` entry)
+    ("import-list-2nd", "import {{ ping, {C} }} from net;\nfn main() {{\n    println(ping(\"a\", 1.0));\n}}\n", "CULPRIT", 3, "No variable or function named"),
+    ("import-list-3rd-multiline", "import {{\n    ping,\n    http,\n    {C}\n}} from net;\nfn main() {{\n    println(ping(\"a\", 1.0), http);\n}}\n", "CULPRIT", 3,
+     "No variable or function named"),
+    ("import-list-type-2nd", "import {{ ping, {C} }} from net;\nfn main() {{\n    println(ping(\"a\", 1.0));\n}}\n", "type CULPRIT", 3, "No type named"),
     ("builtin-fn-param", "fn main() {{\n    let f: fn(seconds: int) -> null = {C};\n    f(1);\n}}\n", "time.sleep", 3, "Mismatched types"),
 ]
 
